@@ -85,6 +85,14 @@ type depthLimiter struct {
 	n     int64 // string length read so far / bytes of body left
 }
 
+// LimitBencodeDepth returns a reader that passes r's data through and fails
+// once the first bencoded value in it nests deeper than the decoder can be
+// trusted to recurse.  It must be put in front of the bencode decoder
+// wherever the data does not come from ourselves.
+func LimitBencodeDepth(r io.Reader) io.Reader {
+	return &depthLimiter{r: r}
+}
+
 func (d *depthLimiter) endValue() {
 	if d.depth == 0 {
 		d.state = 4
